@@ -635,6 +635,49 @@ def r6(ctx):
                 ' '.join(v.options[1:]) or '(default)', got, 8 if want == 256 else 7, want), replay_input=v.spec(), variant=v.describe())
     return n
 
+def r7(ctx):
+    """R7: %option bufsize reaches every buffer the scanner creates for itself.  In every C/C++ variant all calls of
+    yy_create_buffer made by skeleton functions (yylex, yyrestart, the yy_set_* helpers, C++ switch_streams) pass the same
+    constant size; in the bufsize=N variants that constant is N."""
+    import re as _re
+    rep = ctx.rep; n = 0
+    for v in ctx.variants():
+        mod = variants.module(v)
+        sites = []
+        for f in mod.functions.values():
+            if f.name.startswith('verif_') or f.name == 'main': continue
+            for c in f.ins:
+                if c.op not in ('call', 'invoke') or not isinstance(c.callee, str): continue
+                if not _re.search(r'(^|[a-z0-9])(yy|foo)?_?create_buffer', c.callee) and 'yy_create_buffer' not in c.callee and 'create_buffer' not in c.callee: continue
+                ints = [a for a in c.ops if a[0] == 'int']
+                sites.append((f, c, ints[-1][1] if ints else None))
+        if not sites: continue
+        n += 1
+        want = None
+        for o in v.options:
+            m = _re.match(r'bufsize=(\d+)$', o)
+            if m: want = int(m.group(1))
+        sizes = {sz for _, _, sz in sites}
+        sk = {'c99': 'c99-flex.skl', 'go': 'go-flex.skl'}.get(v.backend, 'cpp-flex.skl')
+        bad = None
+        if None in sizes: bad = [x for x in sites if x[2] is None][0]; why = 'passes a size that is not the constant YY_BUF_SIZE'
+        elif want is not None and sizes != {want}:
+            bad = [x for x in sites if x[2] != want][0]; why = 'creates a buffer of %d bytes although %%option bufsize=%d was given' % (bad[2], want)
+        elif len(sizes) > 1:
+            common = max(sizes, key=lambda z: sum(1 for x in sites if x[2] == z))
+            bad = [x for x in sites if x[2] != common][0]; why = 'creates a buffer of %d bytes where the other %d internal call sites use %d (YY_BUF_SIZE)' % (bad[2], len(sites) - 1, common)
+        if bad:
+            rep.fail('C19.R7', 'C19.R7:%s:%s:internal-buffer-size' % (sk, genutil_norm(bad[0].name)), where(bad[1]), '%s() %s [variant %s]' % (bad[0].name, why, v.name), variant=v.describe())
+        else:
+            rep.ok('C19.R7', '%s: %d internal yy_create_buffer call sites all pass %s' % (v.name, len(sites), sorted(sizes)[0]))
+    return n
+
+def genutil_norm(name):
+    import re as _re
+    name = _re.sub(r'^(foo|bar)', 'yy', name)
+    m = _re.search(r'(yy_?[a-z_]+|switch_streams|ctor_common)', name)
+    return m.group(1) if m else name
+
 def run(ctx):
     rep = ctx.rep
     sp = lex.parse_spec(ctx.art.source('scan.l'))
@@ -644,6 +687,7 @@ def run(ctx):
     n4 = r4(ctx) + r4_structure(ctx) + r4_single(ctx)
     n5 = r5(ctx)
     n6 = r6(ctx)
+    r7(ctx)
     rep.setcount('flexopt_enumerators', len(en)); rep.setcount('flexopts_entries', len(tbl))
     rep.setcount('plumbing_symbols', len(plumbing)); rep.setcount('cli_vs_option_pairs', n3)
     rep.floor('C19.R1', 100, '94 enumerators + 14 %option tokens')
@@ -652,6 +696,7 @@ def run(ctx):
     rep.floor('C19.R4', 25, 'noyy* options in the nr/r variants')
     rep.floor('C19.R5', 12, 'options that carry a value')
     rep.floor('C19.R6', 10, 'table options x documented default of -7/-8')
+    rep.floor('C19.R7', 100, 'variants with internal yy_create_buffer call sites')
     rep.undecided += ['the observable run-time effect of each option (value-level)', 'documentation agreement of option descriptions',
                       'options that exist in only one spelling are compared with nothing']
     rep.assumptions += ['the region evaluator covers the straight-line/branching shapes of today\'s option actions; an action it cannot evaluate is listed in notes, not judged']
